@@ -243,3 +243,10 @@ package file
 //@ domain not-a-list: !isList(s)
 //@ func (*file.shardNodeFile).ListIterator
 //@ domain not-a-list: !isList(s)
+
+// C01 / C12: AsBytes of a multi-block file is everything its own reader yields, read to the end; a
+// block that cannot be loaded while doing so is an error, never a short result.
+//@ func (*file.shardNodeFile).AsBytes
+//@ prop C01 C06 C12
+//@ at call io.ReadAll#1 assert reads-its-own-large-bytes-reader: callee_r == rdr
+//@ ensures load-failure-is-returned: err == nil ==> loadFailed == old(loadFailed)
